@@ -9,6 +9,7 @@ import (
 	"encoding/hex"
 	"encoding/json"
 	"fmt"
+	"net"
 	"os"
 	"path/filepath"
 	"runtime"
@@ -19,6 +20,7 @@ import (
 	"sync"
 	"sync/atomic"
 	"time"
+	"unsafe"
 )
 
 // Root is the /verif directory (overridable for tests).
@@ -325,6 +327,28 @@ func (c *Ctx) Range(n int64, f func(i int64)) bool {
 	}
 	wg.Wait()
 	return complete.Load()
+}
+
+// StdShared reports whether b is (a window of) one of the standard library's shared address
+// values (net.IPv4zero, net.IPv4bcast, net.IPv6unspecified, ...). A library may hand those out
+// - they are immutable by convention - so the harness never writes into them when it overwrites
+// values in place.
+func StdShared(b []byte) bool {
+	if len(b) == 0 {
+		return false
+	}
+	p := uintptr(unsafe.Pointer(&b[0]))
+	for _, g := range []net.IP{net.IPv4zero, net.IPv4bcast, net.IPv4allsys, net.IPv4allrouter, net.IPv6zero, net.IPv6unspecified,
+		net.IPv6loopback, net.IPv6interfacelocalallnodes, net.IPv6linklocalallnodes, net.IPv6linklocalallrouters} {
+		if len(g) == 0 {
+			continue
+		}
+		lo := uintptr(unsafe.Pointer(&g[0]))
+		if p >= lo && p < lo+uintptr(len(g)) {
+			return true
+		}
+	}
+	return false
 }
 
 // Safe runs f and returns the recovered panic (with a short stack) if any.
